@@ -53,6 +53,12 @@ class RankCtx:
         self.x = pt.make_placeholder("x", SHAPE, np.float64).tagged(
             OnRank(rank))
 
+    def user_inputs(self):
+        """name -> this rank's Placeholder objects (after finish())."""
+        from pytato.transform import InputGatherer
+        return {i.name: i for i in InputGatherer()(self.outputs)
+                if isinstance(i, pt.Placeholder)}
+
     def _other(self, r):
         for c in range(self.size):
             if c not in (r, self.rank):
@@ -245,6 +251,16 @@ def p_stored_chain(c):
     return {"out": t}
 
 
+def p_sizeparam(c):
+    # arrays of parametric size next to the communicated (static) ones
+    n = pt.make_size_param("n")
+    z = pt.make_placeholder("z", (n,), np.float64)
+    other = (c.rank + 1) % c.size
+    c.send(c.x * 2, other, ("sp", c.rank))
+    prev = (c.rank - 1) % c.size
+    return {"out": c.x + c.recv(prev, ("sp", prev)), "big": z * 3}
+
+
 def p_nocomm(c):
     return {"out": c.x + 1, "aux": pt.sin(c.x)}
 
@@ -282,7 +298,7 @@ PROGRAMS = {
     "multisend": p_multisend, "recv_as_output": p_recv_as_output,
     "recv_reused_later": p_recv_reused_later, "forwarding": p_forwarding,
     "sent_reused_later": p_sent_reused_later, "stored_chain": p_stored_chain,
-    "nocomm": p_nocomm,
+    "nocomm": p_nocomm, "sizeparam": p_sizeparam,
 }
 
 # }}}
@@ -406,10 +422,13 @@ def check_wellformed(rank, ctx, partition):
         if len(pids) != 1:
             bad.append(f"name '{name}' received by parts {pids}")
     # reads
+    from pytato.transform import InputGatherer
+    user_names = {i.name for i in InputGatherer()(ctx.outputs)
+                  if isinstance(i, (pt.Placeholder, pt.SizeParam))}
     for pid, part in parts.items():
         reads = part_reads(partition, part)
         for nm in reads:
-            ok = nm in part.user_input_names and nm == "x"
+            ok = nm in part.user_input_names and nm in user_names
             ok = ok or nm in part.name_to_recv_node
             ok = ok or any(nm in parts[q].name_to_recv_node
                            or nm in parts[q].output_names
